@@ -76,10 +76,30 @@ class Fn:
         if self._succ is None:
             self.thread_bool_joins()
             s = []
-            for bb in self.blocks:
-                s.append(term_succ(bb["t"]))
+            sinks = self._spliced_error_exits()
+            for i, bb in enumerate(self.blocks):
+                s.append([] if i in sinks else term_succ(bb["t"]))
             self._succ = s
         return self._succ
+
+    def _spliced_error_exits(self):
+        """blocks of a spliced callee (engine/inline.py) that commit to an error which the caller propagates: control never comes back to
+        the caller's success code from there, so they are terminal in the CFG (as they are when the same code is written in place)"""
+        if not self.inl_err_locals:
+            return set()
+        al = self.inl_err_locals
+        out = set()
+        for i, bb in enumerate(self.blocks):
+            for st in bb["s"]:
+                d = st.get("d")
+                v = st.get("v")
+                if d and v and d["l"] in al and not d.get("p") and v["r"] == "agg" and v.get("ak") == "adt" and (
+                        (v.get("adt") == "core::result::Result" and v.get("variant") == "Err") or (v.get("adt") == "core::option::Option" and v.get("variant") == "None")):
+                    out.add(i)
+            t = bb["t"]
+            if t["k"] == "call" and t.get("dest") and t["dest"]["l"] in al and not t["dest"].get("p") and "raw" in t and self.dinfo(t["raw"])["name"] == "from_residual":
+                out.add(i)
+        return out
 
     def pred(self):
         if self._pred is None:
